@@ -162,7 +162,10 @@ def inplace_edit_records(jp, queries, env=None, extra=None, rounds: int = 6):
 
 ROOT_QUERIES = ["$.items[?@.v == $.want]", "$.items[?@.v >= $.cfg.lim]", "$.items[?count($.ref[*]) > @.v]", "$.items[?length($.ref) == @.v]",
                 "$.items[?value($.cfg[*]) == @.v]", "$.items[?length(@.s) == length($.ref)]", "$.items[?$.cfg.lim]",
-                "$.items[?@.v == $.cfg.lim || @.v == $.want]", "$..[?@ == $.want]", "$.items[?match(@.s, 'a.*') && @.v != $.want]"]
+                "$.items[?@.v == $.cfg.lim || @.v == $.want]", "$..[?@ == $.want]", "$.items[?match(@.s, 'a.*') && @.v != $.want]",
+                # '$' is the root of the query argument also below a descendant segment that does not start at the root
+                "$.items..[?@ == $.want]", "$.cfg..[?@ == $.want]", "$[?@..[?@ == $.want]]", "$.items[*]..[?@ == $.cfg.lim]",
+                "$.items..[?@.v == $.want]"]
 
 
 def stream_records(jp, env=None, rounds: int = 12):
